@@ -104,6 +104,17 @@ func (propC03) Gen(seed uint64, tier string, idx int) *Plan {
 		}
 		t += time.Duration(1+r.Pick(15)) * time.Second
 	}
+	if len(p.Endpoints) >= 2 && r.Chance(120) {
+		// nothing rejects endpoints that share a configured name: whatever identifies an endpoint to the
+		// retry and status logic has to tell such twins apart
+		twin := pickS(r, []string{"gpu-box", p.Endpoints[0].Name})
+		for i := range p.Endpoints {
+			if i < 2 || r.Chance(300) {
+				p.Endpoints[i].CfgName = twin
+			}
+		}
+		p.Sub += "/same-name"
+	}
 	stmtYields(r, p, 300)
 	p.Deadline = total + time.Minute
 	p.RunFor = total
